@@ -104,7 +104,7 @@ func TestC14(t *testing.T) {
 	rep := vh.NewReport("C14", "path-bearing fields of every route (exhaustive enumeration against the real server, differential oracle)")
 	defer rep.Write()
 	names := c14Names()
-	fields := []string{"data-name", "data-rename", "data-prev", "data-rename-2nd-part", "data-prev-2nd-part", "data-name-before-clean-part", "data-source", "recovery-name", "validate-name", "partials-source", "static-get-path", "static-delete-path", "static-get-source", "static-get-rawpath"}
+	fields := []string{"data-name", "data-rename", "data-prev", "data-rename-2nd-part", "data-prev-2nd-part", "data-name-before-clean-part", "data-name-nosep", "data-rename-nosep", "data-prev-nosep", "data-source", "recovery-name", "validate-name", "partials-source", "static-get-path", "static-delete-path", "static-get-source", "static-get-rawpath"}
 	var rc c14Case
 	replay := vh.ReplaySpec(&rc)
 	n := 0
@@ -178,12 +178,12 @@ func TestC14(t *testing.T) {
 						if strings.Contains(x, "|") {
 							q.Headers["X-STS-Sep"] = "|"
 						}
-					case "data-name", "data-rename", "data-prev", "data-source":
+					case "data-name", "data-rename", "data-prev", "data-source", "data-name-nosep", "data-rename-nosep", "data-prev-nosep":
 							// a fresh file every time: a repeated name + hash would be discarded as a duplicate
 							seq++
 							content = fmt.Sprintf("payload bytes %d", seq)
 							name, ren, prev := fmt.Sprintf("f%d", seq), "", ""
-							switch field {
+							switch strings.TrimSuffix(field, "-nosep") {
 							case "data-name":
 								name = x
 							case "data-rename":
@@ -199,6 +199,10 @@ func TestC14(t *testing.T) {
 							q.Headers["X-STS-MetaLen"] = fmt.Sprint(ml)
 							if strings.Contains(x, "|") {
 								q.Headers["X-STS-Sep"] = "|"
+							}
+							if strings.HasSuffix(field, "-nosep") {
+								// a sender that names no separator: the receiver takes the names as they come
+								delete(q.Headers, "X-STS-Sep")
 							}
 						case "recovery-name":
 							_, body := dataBody(x, "", "", content)
@@ -266,7 +270,7 @@ func TestC14(t *testing.T) {
 			}
 		}
 	}
-	rep.Bound = fmt.Sprintf("%d names built from the fragments {a, .., ., empty, %%2e%%2e, a 300-character name} joined by /, //, \\ and a custom separator, with and without a leading separator, up to three fragments, placed in turn in: file name, rename target, predecessor and source of a data request (rename target and predecessor also on the second, completing part of a two-part file; the file name also on the first of two files of one request), file name of a data-recovery and of a poll request, source of a partials request, URL path (plain and percent-encoded) of static GET / DELETE, source of a static GET; receiver with and without a list of allowed sources; sandbox with canary files above, next to and inside the receiver's directories and in another source's directories", len(names))
+	rep.Bound = fmt.Sprintf("%d names built from the fragments {a, .., ., empty, %%2e%%2e, a 300-character name} joined by /, //, \\ and a custom separator, with and without a leading separator, up to three fragments, placed in turn in: file name, rename target, predecessor and source of a data request (rename target and predecessor also on the second, completing part of a two-part file; the file name also on the first of two files of one request; all three also in a request that carries no separator header), file name of a data-recovery and of a poll request, source of a partials request, URL path (plain and percent-encoded) of static GET / DELETE, source of a static GET; receiver with and without a list of allowed sources; sandbox with canary files above, next to and inside the receiver's directories and in another source's directories", len(names))
 }
 
 // dataBody2: one file in two parts; only the second part carries the rename target / predecessor.
